@@ -28,8 +28,15 @@ def integer(ctx, world, ev):
     def val(s, o):
         return [v for k, v in s.heap[o.oid].items() if v != g]
 
-    ok = val(st, zero) == [Const(1)]
-    ctx.ob("G1-zero", gname + ".Zero", ok, "identity element is the residue 1" if ok else "Zero is not the residue 1: %s" % val(st, zero))
+    def fields(s, o):
+        return ", ".join("%s=%s" % (k, "<group>" if v == g else show(v, maxdepth=3)) for k, v in sorted(s.heap[o.oid].items()))
+
+    def holds(s, o, value):
+        """o has exactly Base's fields: the group where Base holds the group, `value` where Base holds g"""
+        return dict(s.heap[o.oid]) == {k: (g if v == g else value) for k, v in st.heap[base.oid].items()}
+
+    ok = val(st, zero) == [Const(1)] and holds(st, zero, Const(1))
+    ctx.ob("G1-zero", gname + ".Zero", ok, "identity element is the residue 1" if ok else "Zero is not the residue 1: %s" % fields(st, zero))
     ok = val(st, base) == [gg]
     ctx.ob("G1-base", gname + ".Base", ok, "Base is the generator g" if ok else "Base is not the constructor's g: %s" % val(st, base))
 
@@ -46,11 +53,11 @@ def integer(ctx, world, ev):
     rets = session.rets(outs)
     want = mk_app("Mod", (mk_app("Mult", (a, b)), p))
     ok = len(rets) == 1 and len(outs) == 1 and isinstance(rets[0].value, Obj) and rets[0].value.cls is ecls \
-        and val(rets[0].state, rets[0].value) == [want] and g in rets[0].state.heap[rets[0].value.oid].values() \
+        and val(rets[0].state, rets[0].value) == [want] and holds(rets[0].state, rets[0].value, want) \
         and rets[0].value not in (e1, e2)
     ctx.ob("G1-add", gname + " add", ok, "e1.add(e2) is a fresh element of the same group holding (a*b) % p; total on elements" if ok else
            "e1.add(e2) is not a fresh element holding (a*b) mod p on exactly one non-raising path: %s"
-           % [(o.kind, o.exc or (val(o.state, o.value) if isinstance(o.value, Obj) else show(o.value))) for o in outs],
+           % [(o.kind, o.exc or (fields(o.state, o.value) if isinstance(o.value, Obj) else show(o.value))) for o in outs],
            _msite(ecls, "add"))
     # scalarmult
     outs = ev.run_method(e1, "scalarmult", [n], st=s1.fork())
@@ -58,11 +65,11 @@ def integer(ctx, world, ev):
     wants = [mk_app("pow", (a, mk_app("Mod", (n, q)), p)), mk_app("pow", (a, n, p))]
     ok = len(rets) == 1 and len(outs) == 1 and isinstance(rets[0].value, Obj) and rets[0].value.cls is ecls \
         and len(val(rets[0].state, rets[0].value)) == 1 and val(rets[0].state, rets[0].value)[0] in wants \
-        and g in rets[0].state.heap[rets[0].value.oid].values()
+        and holds(rets[0].state, rets[0].value, val(rets[0].state, rets[0].value)[0])
     ctx.ob("G1-scalarmult", gname + " scalarmult", ok,
            "e.scalarmult(n) is a fresh element holding pow(a, n mod q, p) for every integer n (no sign/range condition)" if ok else
            "e.scalarmult(n) is not pow(a, n mod q, p) on exactly one non-raising path: %s"
-           % [(o.kind, o.exc or (val(o.state, o.value) if isinstance(o.value, Obj) else show(o.value))) for o in outs],
+           % [(o.kind, o.exc or (fields(o.state, o.value) if isinstance(o.value, Obj) else show(o.value))) for o in outs],
            _msite(ecls, "scalarmult"))
     # equality
     equality(ctx, world, ev, ecls, s1, e1, e2, a, b, "integer")
@@ -81,7 +88,10 @@ def equality(ctx, world, ev, ecls, st, e1, e2, a, b, label):
     for dn, op in (("__eq__", "Eq"), ("__ne__", "NotEq")):
         r = ecls.lookup(dn)
         inst = "%s.%s" % (ecls.name, dn)
-        if r is None or r[0] != "func":
+        derived = dn == "__ne__" and (r is None or r[0] != "func") and (ecls.lookup("__eq__") or (None,))[0] == "func"
+        if derived:
+            pass     # Python 3: without a __ne__ of its own, != is the negation of the class's __eq__ (evaluated below)
+        elif r is None or r[0] != "func":
             ctx.ob("G2", inst, False,
                    "%s defines no %s: '%s' on elements is object identity, not value equality (the interface promises e1 == e2)"
                    % (ecls.name, dn, "==" if op == "Eq" else "!="), (ecls.mod.relpath, ecls.node.lineno, ecls.name))
@@ -93,8 +103,22 @@ def equality(ctx, world, ev, ecls, st, e1, e2, a, b, label):
         e3 = Ev(world, policy=pol)
         e3.next_oid = ev.next_oid
         outs = []
-        for s, t in e3.compare(op, e1, e2, st.fork(), ("<rule>", 0, dn)):
-            outs.append(t)
+        try:
+            for s, t in e3.compare(op, e1, e2, st.fork(), ("<rule>", 0, dn)):
+                outs.append(t)
+        except AnalysisError as e:
+            # `def __ne__(self, o): return not self != o` - the operator re-enters its own definition with the
+            # same operands: every use raises RecursionError
+            fn = r[1] if r and r[0] == "func" else None
+            again = fn is not None and "call depth budget exceeded" in str(e) and any(
+                isinstance(c, ast.Compare) and len(c.ops) == 1 and type(c.ops[0]).__name__ == op
+                and {getattr(c.left, "id", None), getattr(c.comparators[0], "id", None)} == {a_.arg for a_ in fn.args.args[:2]}
+                for c in ast.walk(fn))
+            if not again:
+                raise
+            ctx.ob("G2", inst, False, "%s applies '%s' to its own two operands again: the comparison never returns (RecursionError on every use)"
+                   % (dn, "==" if op == "Eq" else "!="), _msite(ecls, dn))
+            continue
         raised = list(e3.raised)
         ok = bool(outs) and not raised
         for t in outs:
@@ -105,7 +129,8 @@ def equality(ctx, world, ev, ecls, st, e1, e2, a, b, label):
                         and {x.args, y.args} == {(e1,), (e2,)}:
                     good = True      # compares the canonical encodings of the two operands
             ok = ok and good
-        ctx.ob("G2", inst, ok, "%s compares values (%s)" % (dn, ", ".join(show(t, maxdepth=3) for t in outs)) if ok else
+        ctx.ob("G2", inst, ok, "%s compares values (%s)" % (dn + (" (derived by Python 3 from __eq__)" if derived else ""),
+                                                         ", ".join(show(t, maxdepth=3) for t in outs)) if ok else
                "%s does not reduce to a comparison of the two elements' values: %s%s"
                % (dn, [show(t, maxdepth=4) for t in outs], " raises %s" % [exc for (_, exc, _) in raised] if raised else ""),
                _msite(ecls, dn))
@@ -183,6 +208,14 @@ def ed25519(ctx, world, ev):
                                           and gm.identity_test_ok(world, ev, gm.func_by_qual(world, t.f[3:]))[0]
                                           for (t, p, _) in o.state.pc)]
             ok = bool(idp) and all(o.value == zero for o in idp) and all(o.value != zero for o in rets if o not in idp)
+            # the identity test must see the identity: a coordinate it compares unreduced has to arrive normalised
+            seen = set()
+            for o in rets:
+                for (t, p, _) in o.state.pc:
+                    for (i_, ok_, detail_, site_) in gm.identity_repr_obligations(world, ev, t):
+                        if i_ not in seen:
+                            seen.add(i_)
+                            ctx.ob("G7-repr", inst + " " + i_, ok_, detail_, site_)
             ctx.ob("G7", inst, ok, "the sum is tested for the identity and then (and only then) the Zero singleton is returned" if ok else
                    "addition does not return the Zero singleton exactly when the sum is the identity", _msite(recv.cls, op))
             # the sum's coordinates are complete_add(self, other)
@@ -306,6 +339,35 @@ def loop_ladder(ctx, world, ev, m, forms, f, extra, site):
     entries = [c for (_, c) in e2.loop_entries]
     if len(entries) == 1 and len(entries[0]) == 3:
         return rtl_ladder(ctx, world, ev, forms, f, extra, site, label, e2, outs, pt, n)
+    conts = list(e2.continues)
+    peel = None          # (list local, why-not or None): an inline digit peel in front of the ladder loop
+    if len(entries) == 2:
+        def loop_of(p):
+            ls = [x[1] for x in p.st.log if x[0] == "loop-enter"]
+            return ls[-1] if ls else None
+        s1, c1 = e2.loop_entries[0]
+        lists = [k for k, v in c1.items() if isinstance(v, TupleV) and v.kind == "list" and not v.items]
+        rems = [k for k, v in c1.items() if v == n]
+        if len(c1) == 2 and len(lists) == 1 and len(rems) == 1:
+            # while r: L.append(r & 1); r >>= 1   -  n = r * 2^len(L) + value(L) is kept, the loop ends at r = 0
+            L, r = lists[0], rems[0]
+            sL = App("star", (Sym("loop:" + L, "list"),))
+            rr = Sym("loop:" + r, "int")
+            nz = lambda conds, t, want: (t, want) in conds or (mk_app("NotEq", (t, Const(0))), want) in conds or \
+                (mk_app("Eq", (t, Const(0))), not want) in conds or (mk_app("Lt", (Const(0), t)), want) in conds
+            mine = [p for p in conts if loop_of(p) == s1]
+            why = None if mine else "no way round the digit loop"
+            for p in mine:
+                conds = {(t, pol) for (t, pol, _) in p.st.pc}
+                nl, nr = p.val["locals"].get(L), p.val["locals"].get(r)
+                okl = isinstance(nl, TupleV) and len(nl.items) == 2 and nl.items[0] == sL and \
+                    nl.items[1] in (mk_app("BitAnd", (rr, Const(1))), mk_app("Mod", (rr, Const(2))))
+                okr = nr in (mk_app("RShift", (rr, Const(1))), mk_app("FloorDiv", (rr, Const(2))))
+                if not (okl and okr and nz(conds, rr, True)):
+                    why = "an iteration of the digit loop is not  L.append(r & 1); r >>= 1  under r != 0"
+            peel = (L, rr, why, nz)
+            conts = [p for p in conts if loop_of(p) != s1]
+            entries = entries[1:]
     okshape = len(entries) == 1 and len(entries[0]) == 1
     acc_name = list(entries[0])[0] if okshape else None
     ctx.ob("G6", label + " accumulator", okshape, "one loop with one carried local (the accumulator %s)" % acc_name if okshape else
@@ -339,7 +401,7 @@ def loop_ladder(ctx, world, ev, m, forms, f, extra, site):
         return None
     # the digit source: most significant first binary digits of n
     its = []
-    for o in list(rets) + [Outcome_like(p) for p in e2.continues]:
+    for o in list(rets) + [Outcome_like(p) for p in conts]:
         for t in [x for (c, _, _) in o.state.pc for x in subterms(c)]:
             if is_app(t, "iter-elem") and t not in its:
                 its.append(t)
@@ -381,6 +443,20 @@ def loop_ladder(ctx, world, ev, m, forms, f, extra, site):
                     or (mk_app("Eq", (it, Const(1))), want) in conds
             is_one = lambda conds: _t3(conds, True)
             is_zero = lambda conds: _t3(conds, False)
+        elif peel is not None and src == mk_app("reversed", (TupleV([App("star", (Sym("loop:" + peel[0], "list"),))], "list"),)):
+            # for digit in reversed(L) after the inline peel; every path into the loop has left the peel at r = 0
+            L, rr, why, nz = peel
+            left = all(nz({(t, pol) for (t, pol, _) in p.st.pc}, rr, False) for p in conts) and \
+                all(nz({(t, pol) for (t, pol, _) in o.state.pc}, rr, False) for o in rets)
+            okd = why is None and left
+            how = "reversed(%s) after  while r: %s.append(r & 1); r >>= 1  from r = n: the binary digits of n, most significant first" % (L, L) \
+                if okd else (why or "the ladder loop is reached with digits still to peel")
+
+            def _t4(conds, want):
+                return (it, want) in conds or (mk_app("NotEq", (it, Const(0))), want) in conds or (mk_app("Eq", (it, Const(0))), not want) in conds \
+                    or (mk_app("Eq", (it, Const(1))), want) in conds
+            is_one = lambda conds: _t4(conds, True)
+            is_zero = lambda conds: _t4(conds, False)
         elif isinstance(src, App) and src.f.startswith("fn:") and src.args == (n,) and not src.kw \
                 and gm.func_by_qual(world, src.f[3:]) is not None:
             dg = gm.func_by_qual(world, src.f[3:])
@@ -396,7 +472,7 @@ def loop_ladder(ctx, world, ev, m, forms, f, extra, site):
            "the loop does not run over the binary digits of n (most significant first): %s" % [show(i.args[0], maxdepth=4) for i in its], site)
     step1 = step0 = False
     bad = []
-    for p in e2.continues:
+    for p in conts:
         conds = {(t, pol) for (t, pol, _) in p.st.pc}
         l = lin(p.val["locals"].get(acc_name))
         is1, is0 = is_one(conds), is_zero(conds)
